@@ -20,7 +20,7 @@ exception thrown in at the yield) does - under the conditions checked here, and 
     every path has at most one of them, and its only ``return``s are bare ones closing an ``if`` branch (turned into if/else);
   * when BODY leaves by return / break / continue, nothing of the generator follows the yield on the normal path (else the
     remainder would be skipped by the inlined jump while ``__exit__`` would still run it);
-  * the call's arguments are names, attributes of names or constants (evaluated once, no effects).
+  * the call's arguments are names, attributes or constant-key items of names, or constants (evaluated once, no effects).
 Anything else is left as it was written.  A context manager all of whose uses were lowered is dropped from its class / module
 (its code now lives at the use sites); one with other references stays."""
 from __future__ import annotations
@@ -68,6 +68,8 @@ def _elim_returns(stmts):
 def _simple_arg(e) -> bool:
     if isinstance(e, (ast.Name, ast.Constant)):
         return True
+    if isinstance(e, ast.Subscript):
+        return _simple_arg(e.value) and isinstance(e.slice, ast.Constant)       # rule["tags"]: a read without effects
     return isinstance(e, ast.Attribute) and _simple_arg(e.value)
 
 
